@@ -46,6 +46,13 @@ CHECKS.update({
     technique='metamorphic property-based testing (settings matrix) + reference model + text round trip'),
 })
 
+CHECKS.update({
+ 'C13': dict(level='fault_enumeration', design='3/C13',
+    text='A harness-owned fault-injecting TCP relay between cpppo\'s client APIs (pipeline, synchronous/operate/results/process, proxy.read) and a real TCP simulator: for generated exchanges over position-identifying tag values EVERY cut offset of the reply stream, the cut offsets of the request stream, sampled blackhole offsets and proxy fault/recover sequences are replayed; oracle: error or complete, every yielded value correct for its own operation, no result beyond what complete reply frames delivered, gateway discarded and next use recovers. Enumeration is exhaustive per generated exchange (bounds in the evidence), not over exchanges.',
+    note='Trusted: CPython, Hypothesis (exchange generation), vp/relay.py, vp/refcodec.py (frame accounting). Races between a request-stream cut and replies in flight are neutralised by judging only what the relay recorded as delivered.',
+    technique='fault injection at every byte offset (enumerated) over Hypothesis-generated exchanges, model-value oracle'),
+})
+
 PENDING = {}
 
 def main():
